@@ -5,6 +5,10 @@ import (
 	"strings"
 
 	"github.com/hashicorp/hcl/v2"
+	"github.com/hashicorp/hcl/v2/ext/dynblock"
+	"github.com/hashicorp/hcl/v2/hcldec"
+	"github.com/hashicorp/hcl/v2/hclsyntax"
+	hcljson "github.com/hashicorp/hcl/v2/json"
 	"github.com/zclconf/go-cty/cty"
 
 	"verif/engine/vf"
@@ -27,6 +31,7 @@ var errCatalogue = []shape{
 	{`s.nope`, kObj}, {`s == {a = 1}`, kObj}, {`null[s]`, kStr}, {`s[null]`, kMap}, {`o[null] == s`, kStr},
 	{`[for x in s : x.foo]`, kList}, {`[for k, v in s : upper(k, v)]`, kMap}, {`{for k, v in s : k => v.nope}`, kMap},
 	{`[for x in s : x + 1]`, kTup}, {`"%{for x in s}${x.y}%{endfor}"`, kList},
+	{`b ? {(s) = 1} : {x = [1]}`, kStr}, {`b ? [{(s) = 1}] : [{x = "y"}, 2]`, kStr}, {`[for v in [{(s) = 1}] : v.nope]`, kStr},
 	{`{a = s}.b`, kStr}, {`[s].x`, kStr}, {`{(s) = 1}.nope`, kStr}, {`{(s) = 1}[0]`, kStr},
 }
 
@@ -90,4 +95,59 @@ func H_Secrecy() {
 	} else {
 		vf.AssertKnown(!leak(buf.String(), secret), "rendered-diagnostic-leaks-secret: "+sh.src, "C19-duplicate-object-key", dupKey)
 	}
+}
+
+
+var secrecyBodies = []struct {
+	json bool
+	src  string
+}{
+	{true, `{"a": {"${s}": 1, "${s}": 2}}`},
+	{true, `{"a": "${l[s]}"}`},
+	{true, `{"a": ["${s + 1}"]}`},
+	{false, "a = {(s) = \"plenty\"}\n"},
+	{false, "a = {outer = {(s) = [\"x\"]}}\n"},
+	{false, "a = s\n"},
+	{false, "dynamic \"blk\" {\n  for_each = [1]\n  labels = [s, s]\n  content {}\n}\n"},
+	{false, "dynamic \"blk\" {\n  for_each = s\n  content {}\n}\n"},
+	{false, "blk {\n  x = [s]\n}\n"},
+}
+
+// H_SecrecyBody (C19, bodies): JSON expressions, hcldec attribute conversion errors and
+// dynamic-block label/for_each errors with a marked secret.
+func H_SecrecyBody() {
+	bi := vf.Concretize(vf.Choice(len(secrecyBodies)))
+	sb := secrecyBodies[bi]
+	secret := secretString()
+	vf.Observe("body", bi)
+	ctx := scope(cty.StringVal(secret).Mark("sensitive"))
+	var body hcl.Body
+	if sb.json {
+		f, diags := hcljson.Parse([]byte(sb.src), "b.json")
+		vf.Assert(!diags.HasErrors(), "body-parses")
+		body = f.Body
+	} else {
+		f, diags := hclsyntax.ParseConfig([]byte(sb.src), "b.hcl", hcl.InitialPos)
+		vf.Assert(!diags.HasErrors(), "body-parses")
+		body = f.Body
+	}
+	specs := []hcldec.Spec{
+		hcldec.ObjectSpec{"a": &hcldec.AttrSpec{Name: "a", Type: cty.Map(cty.Number)}, "blks": &hcldec.BlockMapSpec{TypeName: "blk", LabelNames: []string{"k"}, Nested: hcldec.ObjectSpec{"x": &hcldec.AttrSpec{Name: "x", Type: cty.List(cty.Bool)}}}},
+		hcldec.ObjectSpec{"a": &hcldec.AttrSpec{Name: "a", Type: cty.Map(cty.Map(cty.Bool))}, "blks": &hcldec.BlockListSpec{TypeName: "blk", Nested: hcldec.ObjectSpec{"x": &hcldec.AttrSpec{Name: "x", Type: cty.Number}}}},
+	}
+	spec := specs[vf.Concretize(vf.Choice(len(specs)))]
+	_, diags := hcldec.Decode(dynblock.Expand(body, ctx), spec, ctx)
+	if !diags.HasErrors() {
+		vf.Reach("no-error")
+		return
+	}
+	vf.Reach("error")
+	var buf bytes.Buffer
+	w := hcl.NewDiagnosticTextWriter(&buf, map[string]*hcl.File{}, 78, false)
+	_ = w.WriteDiagnostics(diags)
+	for _, d := range diags {
+		bad := leak(d.Summary, secret) || leak(d.Detail, secret)
+		vf.Assert(!bad, "diagnostic-leaks-secret: "+sb.src)
+	}
+	vf.Assert(!leak(buf.String(), secret), "rendered-diagnostic-leaks-secret: "+sb.src)
 }
